@@ -971,7 +971,7 @@ type vfC14MapGenState struct {
 }
 
 func (g *vfC14MapGenState) op(rt *rapid.T, l string, filters, allowFault bool) vfC14MapOp {
-	o := vfC14MapOp{Key: rapid.IntRange(0, 3).Draw(rt, l+"key")}
+	o := vfC14MapOp{Key: rapid.SampledFrom([]int{0, 0, 0, 0, 1, 1, 2, 3}).Draw(rt, l+"key")}
 	o.Remove = rapid.IntRange(0, 6).Draw(rt, l+"rm") == 0
 	if filters {
 		o.Tags = vfTagsGen(rt, l+"tags")
@@ -1030,9 +1030,9 @@ func vfC14GenMap(rt *rapid.T) vfC14MapCase {
 	for i := 0; i < np; i++ {
 		c.Pre = append(c.Pre, g.op(rt, "pre", filters, false))
 	}
-	n := rapid.IntRange(4, 20).Draw(rt, "nsteps")
+	n := rapid.IntRange(6, 24).Draw(rt, "nsteps")
 	for i := 0; i < n; i++ {
-		k := rapid.SampledFrom([]int{0, 0, 0, 0, 0, 0, 0, 1, 1, 2}).Draw(rt, "kind")
+		k := rapid.SampledFrom([]int{0, 0, 0, 0, 0, 0, 0, 1, 1, 2, 2}).Draw(rt, "kind")
 		if i < ns {
 			k = 1
 		}
@@ -1058,7 +1058,7 @@ func vfC14GenMap(rt *rapid.T) vfC14MapCase {
 			}
 			s.Gate = rapid.IntRange(0, 2).Draw(rt, "gate") == 0
 			if s.Gate {
-				nd := rapid.IntRange(1, 3).Draw(rt, "nduring")
+				nd := rapid.IntRange(1, 5).Draw(rt, "nduring")
 				for q := 0; q < nd; q++ {
 					s.During = append(s.During, g.op(rt, "d", filters, false))
 				}
